@@ -148,6 +148,23 @@ def tool_inputs(c, count):
     return ins
 
 
+
+def coqchk_except_sweeps(c):
+    """thorough tier: coqchk over the closure of the property file, except Fold/Utf8Grammar.v whose
+    exhaustive vm_compute sweeps (1.1 million byte sequences) coqchk would re-evaluate without the VM
+    (> 15 min); that file is checked by coqc's kernel only, which the evidence states."""
+    mod = "PP.Props.Properties_%s" % c.prop
+    with Lock("coq"):
+        rc, out = run(["coqchk", "-silent", "-o", "-Q", "theories", "PP", "-admit", "PP.Fold.Utf8Grammar", mod], cwd=COQ, timeout=1500)
+    text = out.decode("utf-8", "replace")
+    ok = rc == 0 and "type-in-type: <none>" in text and "unsafe (co)fixpoints: <none>" in text
+    c.cov["coqchk"] = ("ok" if ok else "FAILED") + " (Utf8Grammar admitted): " + " ".join(text.split())[-300:]
+    c.cov["trusted_base"].append("coqchk -o over %s with -admit PP.Fold.Utf8Grammar (the Table 3-7 sweeps are checked by coqc + vm_compute only): %s" % (mod, "ok" if ok else "FAILED"))
+    if not ok:
+        c.broken.append("coqchk failed on %s: %s" % (mod, text[-400:]))
+    return ok
+
+
 def main(argv):
     c = Check("C07", argv)
     ok, blog = build_repo(["hx_wrap", "foldfilter"])
@@ -156,7 +173,7 @@ def main(argv):
         return c.finish(rule="build failed")
     c.proofs()
     if not (c.tier == "quick"):
-        coqchk(c)
+        coqchk_except_sweeps(c)
     drv, dlog = build_driver("C07")
     impl = hx_bin("hx_wrap")
     tool = repo_bin("foldfilter")
@@ -363,6 +380,59 @@ def main(argv):
                     c.broken.append("correspondence tool model vs bin/foldfilter: case %r: model %s, tool %s" % (tlines[i][:200], mout[i][:200], want[:200]))
     c.cov["traces_validated_against_impl"] += len(tcases)
     c.sample({"tool_case": tlines[3][:200]})
+
+    # ---------------- long streams: the feeder->collector queue (util::UnboundedSingleQueue) works in pages of
+    #     1023 entries; line counts around multiples of the page size, all at once and with stdin stalling
+    #     right after a long line at a page boundary (the collector then catches up with the feeder there)
+    def mklines(n):
+        ls = []
+        for i in range(1, n + 1):
+            if i % 1023 == 0:
+                ls.append(("long line %d:" % i + "".join(" word%d, more-text." % j for j in range(600))).encode())
+            elif i % 7 == 0:
+                ls.append(("line %d, with some more text: so that it gets folded - several times. over/and/over \u00e9\u20ac" % i).encode("utf-8"))
+            elif i % 11 == 0:
+                ls.append(b"")
+            else:
+                ls.append(b"line %d" % i)
+        return ls
+
+    def check_stream(tag, ls, st, so, se, how):
+        c.count((tag, len(ls)), nontrivial=True, bucket="long-stream/" + tag.split(":")[0])
+        rep = {"op": "tool", "lines": len(ls), "status": st, "stdout_lines": so.count(b"\n"), "stderr": se.decode("utf-8", "replace")[-300:], "how": how}
+        if st == "timeout":
+            c.violation("hang: foldfilter did not finish a stream of %d lines (%s)" % (len(ls), tag), rep)
+        elif st != 0:
+            c.violation("tool-failed: foldfilter exit status %s on a stream of %d valid lines (%s), %d lines came out" % (st, len(ls), tag, so.count(b"\n")), rep)
+        else:
+            ol = so.split(b"\n")
+            if so.endswith(b"\n") or so == b"":
+                ol.pop()
+            if len(ol) != len(ls):
+                c.violation("line-count: %d input lines, %d output lines (%s)" % (len(ls), len(ol), tag), rep)
+            elif ol != ls:
+                j = [k for k in range(len(ls)) if ls[k] != ol[k]][0]
+                c.violation("identity-child: line %d of %d (%s) %r came back as %r" % (j + 1, len(ls), tag, ls[j][:60], ol[j][:60]), dict(rep, line_index=j + 1))
+
+    idc = os.path.join(CHILDREN, "child_id.py")
+    for n in ((1022, 1023, 1024, 2046, 2047, 3500) if quick else (1021, 1022, 1023, 1024, 1025, 2045, 2046, 2047, 2048, 3069, 3500, 5200)):
+        ls = mklines(n)
+        mode = ["-s"] if n % 2 else []
+        st, so, se = run_limited([tool, "-w", "40"] + mode + [idc], stdin=b"".join(l + b"\n" for l in ls), timeout=60)
+        check_stream("at-once", ls, st, so, se, "%d lines (see mklines in checks/C07.py) | foldfilter -w 40 %s child_id.py" % (n, " ".join(mode)))
+    for n, cuts in ((2500, (1023, 2046)), (1100, (1022,)), (2100, (1024, 2047))):
+        ls = mklines(n)
+        enc = [l + b"\n" for l in ls]
+        parts, prev = [], 0
+        for cpos in cuts:
+            parts.append(b"".join(enc[prev:cpos]))
+            prev = cpos
+        parts.append(b"".join(enc[prev:]))
+        for mode, child in (([], "cat"), (["-s"], idc)):
+            st, so, se = run_staged([tool, "-w", "40"] + mode + [child], parts, pause=1.2, timeout=60)
+            check_stream("stalled-stdin:%s%s" % (os.path.basename(child), mode and " -s" or ""), ls, st, so, se,
+                         "%d lines, stdin pauses 1.2 s after line(s) %s | foldfilter -w 40 %s %s" % (n, list(cuts), " ".join(mode), os.path.basename(child)))
+    c.cov["traces_validated_against_impl"] += 12
 
     # ---------------- the width option: every decimal number a size_t holds is a width; anything else a usage error
     wstrs = ["1", "7", "007", "80", "2147483647", "2147483648", "3000000000", "4294967295", "4294967296", "4294967297", "1000000000000",
